@@ -137,7 +137,7 @@ def gen_doc(rng):
         val = rng.choice(["1", "[1, 2]", "{a: b}", '"text"', "2001-12-14", "!!set {a, b}", "!!binary aGVsbG8="])
         bad = None
     pos = rng.choice(["top", "pipeline-element", "eager-arg", "lazy-arg", "nested", "key", "eager-key", "lazy-key",
-                      "eager-seq", "lazy-seq", "pipeline-arg", "pipeline-key", "deep-lazy"])
+                      "eager-seq", "lazy-seq", "pipeline-arg", "pipeline-key", "deep-lazy", "root", "root-flow", "section"])
     if pos == "top":
         text = "__config_test:\n  x: %s\npipeline: []\n" % val
     elif pos == "pipeline-element":
@@ -148,6 +148,16 @@ def gen_doc(rng):
         text = "__config_test:\n  y: !LinearController\n    rate: %s\npipeline: []\n" % val
     elif pos == "nested":
         text = "__config_test:\n  y:\n    - [1, {k: [%s]}]\npipeline: []\n" % val
+    elif pos in ("root", "root-flow", "section") and bad is not None:
+        # the tag sits on the mapping that is the document itself (or on a whole section): the content
+        # below it is a perfectly valid configuration
+        tag = val.split(" ")[0]
+        if pos == "root":
+            text = "--- %s\npipeline: []\n__config_test:\n  x: 1\n" % tag
+        elif pos == "root-flow":
+            text = "%s {pipeline: [], __config_test: {x: 1}}\n" % tag
+        else:
+            text = "pipeline: []\n__config_test: %s\n  x: 1\n" % tag
     elif pos == "eager-key":
         text = "__config_test:\n  y: !__yaml_tag_test\n    ? %s\n    : 1\npipeline: []\n" % val
     elif pos == "lazy-key":
